@@ -154,6 +154,64 @@ def rule_hash_order(ctx, rep, rid: str) -> None:
                     rep.bad(rid, f"{f.qual}:{n.left.id}:literal-compare", f"{f.qual} compares a slot number taken from a hash-ordered table with the literal {c.value}", f"{f.module.rel}:{n.lineno}")
 
 
+def rule_frame_positions(ctx, rep, rid: str) -> None:
+    """Slots of a call frame beyond the parameter prefix are numbered in hash order: they may only be
+    filled by name (slot = table.index(name)), never by position."""
+    rep.rule(rid, "a call frame's local slots are filled positionally only inside the parameter prefix (i < len(params), the `arguments` slot len(params)); every other slot is addressed through name -> index lookup and the frame starts as a constant fill", floor=2)
+    n = 0
+    for f in ctx.tree.funcs:
+        if f.module.name not in MODULES:
+            continue
+        frames: Dict[str, ast.Assign] = {}
+        for x in f.own_nodes():
+            if not (isinstance(x, ast.Attribute) and x.attr == "num_locals" and isinstance(x.ctx, ast.Load)):
+                continue
+            n += 1
+            par = getattr(x, "_parent", None)
+            key = f"{f.qual}:num_locals:{type(par).__name__}"
+            if isinstance(par, ast.BinOp) and isinstance(par.op, ast.Mult) and isinstance(par.left, ast.List) and len(par.left.elts) == 1 and isinstance(par.left.elts[0], (ast.Name, ast.Constant)):
+                rep.ok(rid, key, {"use": "constant fill"})
+                st = par
+                while st is not None and not isinstance(st, ast.stmt):
+                    st = getattr(st, "_parent", None)
+                if isinstance(st, ast.Assign) and isinstance(st.targets[0], ast.Name) and st.value is par:
+                    frames[st.targets[0].id] = st
+            elif isinstance(par, ast.Compare):
+                rep.ok(rid, key, {"use": "bounds test"})
+            elif isinstance(par, ast.keyword) or isinstance(par, ast.Call) and norm(par.func) == "len":
+                rep.ok(rid, key)
+            else:
+                st = par
+                while st is not None and not isinstance(st, ast.stmt):
+                    st = getattr(st, "_parent", None)
+                rep.bad(rid, key, f"{f.qual} uses num_locals to build or fill a frame positionally ({short(st or par, 70)}): values land in local slots whose numbering depends on the host's string-hash seed", f"{f.module.rel}:{x.lineno}")
+        for name, a in frames.items():
+            idx_ok: Set[str] = set()
+            for b in f.own_nodes():
+                if isinstance(b, ast.Assign) and isinstance(b.targets[0], ast.Name):
+                    t = norm(b.value)
+                    if ".index(" in t or (t.startswith("len(") and t.endswith(".params)")):
+                        idx_ok.add(b.targets[0].id)
+            for b in f.own_nodes():
+                if isinstance(b, ast.Assign):
+                    for tg in b.targets:
+                        if isinstance(tg, ast.Subscript) and isinstance(tg.value, ast.Name) and tg.value.id == name:
+                            i = tg.slice
+                            k2 = f"{f.qual}:{name}[{norm(i)}]"
+                            ok = isinstance(i, ast.Name) and i.id in idx_ok
+                            if not ok and isinstance(i, ast.Name):
+                                from ..util import guards_of
+
+                                g = [norm(t) for t, pol in guards_of(b, f.node) if pol]
+                                ok = any(x.startswith(f"{i.id} < len(") and x.endswith(".params)") for x in g)
+                            if ok:
+                                rep.ok(rid, k2)
+                            else:
+                                rep.bad(rid, k2, f"{f.qual} stores into frame slot {norm(i)} of `{name}` without proving it lies in the parameter prefix or comes from a name lookup", f"{f.module.rel}:{b.lineno}")
+    if n < 2:
+        raise AnalysisError(f"only {n} frame constructions found")
+
+
 def _classify_use(n: ast.Attribute, p: Optional[ast.AST], f: Func) -> Tuple[bool, str]:
     if isinstance(p, ast.Compare):
         if any(isinstance(o, (ast.In, ast.NotIn)) for o in p.ops) and n in p.comparators:
